@@ -24,13 +24,43 @@ from .values import SBool, SInt
 
 KINDS = ('float', 'int', 'bool', 'str')
 _NP = {'float': float, 'int': int, 'bool': bool, 'str': '<U3'}
+# exact dtype tags (family + width): the invariant is about the dtype a series was created with, not just its family
+TAGS = {'float64': 'float', 'float32': 'float', 'int64': 'int', 'int8': 'int', 'bool': 'bool', 'U3': 'str', 'U1': 'str'}
+DEFAULT_TAG = {'float': 'float64', 'int': 'int64', 'bool': 'bool', 'str': 'U3'}
+NP_OF_TAG = {'float64': _np.float64, 'float32': _np.float32, 'int64': _np.int64, 'int8': _np.int8, 'bool': _np.bool_, 'U3': '<U3', 'U1': '<U1'}
+_NPCHAR = {'float': 'f', 'int': 'i', 'bool': 'b', 'str': 'U'}
+
+
+def tag_of_dtype(dt: Any) -> str:
+    """Exact tag for a real NumPy dtype / Python type / AbsDtype / family name."""
+    if isinstance(dt, AbsDtype):
+        return dt.tag
+    if isinstance(dt, str) and dt in TAGS:
+        return dt
+    if isinstance(dt, str) and dt in KINDS:
+        return DEFAULT_TAG[dt]
+    d = _np.dtype(dt)
+    if d.kind == 'U':
+        return 'U1' if d.itemsize <= 4 else 'U3'
+    name = d.name
+    if name in TAGS:
+        return name
+    if d.kind == 'f':
+        return 'float32' if d.itemsize < 8 else 'float64'
+    if d.kind in 'iu':
+        return 'int8' if d.itemsize < 8 else 'int64'
+    if d.kind == 'b':
+        return 'bool'
+    raise TypeError(f'absnp: dtype {dt!r} not modelled')
 
 
 def kind_of_dtype(dt: Any) -> str:
     if isinstance(dt, str) and dt in KINDS:
         return dt
     if isinstance(dt, AbsDtype):
-        return dt.kind
+        return dt.family
+    if isinstance(dt, str) and dt in TAGS:
+        return TAGS[dt]
     d = _np.dtype(dt)
     if d.kind == 'f':
         return 'float'
@@ -61,17 +91,40 @@ def _iv(x: Any):
 
 
 class AbsDtype:
-    def __init__(self, kind: str) -> None:
-        self.kind = kind
+    """Mimics the attributes of numpy.dtype that container code may look at."""
+
+    def __init__(self, tag: str) -> None:
+        self.tag = tag if tag in TAGS else DEFAULT_TAG[tag]
+        self.family = TAGS[self.tag]
+
+    @property
+    def kind(self) -> str:      # numpy's one-letter kind code
+        return _NPCHAR[self.family]
+
+    @property
+    def itemsize(self) -> int:
+        return _np.dtype(NP_OF_TAG[self.tag]).itemsize
+
+    @property
+    def name(self) -> str:
+        return self.tag
 
     def __eq__(self, o):
-        return isinstance(o, AbsDtype) and o.kind == self.kind
+        if isinstance(o, AbsDtype):
+            return o.tag == self.tag
+        try:
+            return tag_of_dtype(o) == self.tag
+        except TypeError:
+            return False
+
+    def __ne__(self, o):
+        return not self.__eq__(o)
 
     def __hash__(self):
-        return hash(self.kind)
+        return hash(self.tag)
 
     def __repr__(self):
-        return f'dtype({self.kind})'
+        return f'dtype({self.tag})'
 
 
 class AbsArr:
@@ -81,7 +134,8 @@ class AbsArr:
 
     def __init__(self, dims: Tuple[Any, ...], kind: str, token: Optional[str] = None) -> None:
         self.dims = tuple(_iv(d) for d in dims)
-        self.kind = kind
+        self.tag = kind if kind in TAGS else DEFAULT_TAG[kind]
+        self.kind = TAGS[self.tag]          # family, drives the cast rules
         AbsArr._tok += 1
         self.token = token or f'arr{AbsArr._tok}'
         self.writes: List[str] = []
@@ -97,7 +151,7 @@ class AbsArr:
 
     @property
     def dtype(self):
-        return AbsDtype(self.kind)
+        return AbsDtype(self.tag)
 
     @property
     def nbytes(self):
@@ -105,23 +159,24 @@ class AbsArr:
 
     def flatten(self) -> 'AbsArr':
         if self.ndim == 0:
-            return AbsArr((1,), self.kind)
+            return AbsArr((1,), self.tag)
         n = self.dims[0]
         for d in self.dims[1:]:
             n = n * d
-        return AbsArr((n,), self.kind)
+        return AbsArr((n,), self.tag)
 
     def astype(self, dt: Any) -> 'AbsArr':
-        k = dt.kind if isinstance(dt, AbsDtype) else kind_of_dtype(dt)
+        tag = tag_of_dtype(dt)
+        k = TAGS[tag]
         if not can_cast(self.kind, k):
             # an empty array casts fine; otherwise ValueError
             if self._is_empty():
-                return AbsArr(self.dims, k)
+                return AbsArr(self.dims, tag)
             raise ValueError(f'could not convert {self.kind} to {k}')
-        return AbsArr(self.dims, k)
+        return AbsArr(self.dims, tag)
 
     def copy(self) -> 'AbsArr':
-        a = AbsArr(self.dims, self.kind, self.token)
+        a = AbsArr(self.dims, self.tag, self.token)
         a.writes = list(self.writes)
         return a
 
@@ -145,7 +200,7 @@ class AbsArr:
         if self.ndim != 2:
             raise TypeError('absnp: iteration only modelled for 2-D arrays (values setter)')
         n = SInt(self.dims[0]).__index__()
-        return iter([AbsArr((self.dims[1],), self.kind) for _ in range(n)])
+        return iter([AbsArr((self.dims[1],), self.tag) for _ in range(n)])
 
     # assignment -----------------------------------------------------------------------
     def _assign_check(self, target_len, value: Any) -> None:
@@ -245,7 +300,7 @@ class AbsSeq(Sequence):
         self.flavour = flavour
 
     def as_array(self, kind: Optional[str] = None) -> AbsArr:
-        return AbsArr(self.dims, kind or self.kind)
+        return AbsArr(self.dims, kind or self.kind)   # list / tuple / range operands get NumPy's default width
 
     def __len__(self):
         return SInt(self.dims[0]).__index__()
@@ -290,8 +345,8 @@ class AbsNp:
                         break
             if not same:
                 raise ValueError('setting an array element with a sequence (inhomogeneous shape)')
-            kinds = {x.kind for x in obj}
-            return AbsArr((len(obj),) + first.dims, kinds.pop() if len(kinds) == 1 else 'float')
+            tags = {x.tag for x in obj}
+            return AbsArr((len(obj),) + first.dims, tags.pop() if len(tags) == 1 else 'float64')
         if isinstance(obj, list) and not obj:
             return AbsArr((0,), 'float')
         raise TypeError(f'absnp.array: operand {type(obj).__name__} not modelled')
@@ -305,20 +360,21 @@ class AbsNp:
         n = _iv(shape)
         if isinstance(fill_value, (AbsArr, AbsSeq)):
             # np.full(n, array): broadcast the array to (n,)
-            tmp = AbsArr((n,), kind_of_dtype(dtype) if dtype is not None and not isinstance(dtype, AbsDtype) else (dtype.kind if dtype is not None else fill_value.kind))
+            tmp = AbsArr((n,), tag_of_dtype(dtype) if dtype is not None else fill_value.tag if isinstance(fill_value, AbsArr) else fill_value.kind)
             tmp._assign_check(n, fill_value)
             return tmp
         k_src = scalar_kind(fill_value)
-        k_dst = (dtype.kind if isinstance(dtype, AbsDtype) else kind_of_dtype(dtype)) if dtype is not None else k_src
+        t_dst = tag_of_dtype(dtype) if dtype is not None else DEFAULT_TAG[k_src]
+        k_dst = TAGS[t_dst]
         if not can_cast(k_src, k_dst):
             if cur().branch(n == 0):
-                return AbsArr((n,), k_dst)
+                return AbsArr((n,), t_dst)
             raise ValueError(f'could not convert {k_src} to {k_dst}')
-        return AbsArr((n,), k_dst)
+        return AbsArr((n,), t_dst)
 
     def issubdtype(self, a, b):
         if isinstance(a, AbsDtype):
-            a = _np.dtype(_NP[a.kind])
+            a = _np.dtype(NP_OF_TAG[a.tag])
         return _np.issubdtype(a, b)
 
 
